@@ -16,7 +16,7 @@ import (
 
 // C06Cfg is the op mix of the C06 histories (weights are relative).
 var C06Cfg = &Cfg{
-	KV: 22, Session: 8, Reap: 2, Catalog: 24, Dereg: 12, Txn: 8, PQ: 4, Config: 10, Coord: 3, SysMeta: 1, Killer: 2,
+	KV: 22, Session: 10, Reap: 2, Catalog: 24, Dereg: 12, Txn: 8, PQ: 6, Config: 12, Coord: 3, SysMeta: 1, Killer: 4,
 	TxnCatalog: true, Peers: true, Connect: true, Rename: true, SessionChecks: true, MaxTxnOps: 3,
 }
 
@@ -35,6 +35,8 @@ func (w *World) DrawC06Op(t *rapid.T) *Op {
 		return w.DrawC06CheckFlip(t)
 	case x < 24:
 		return w.DrawC06KVDelete(t)
+	case x < 28:
+		return w.DrawC06Intentions(t)
 	}
 	return w.DrawOp(t, C06Cfg)
 }
@@ -224,4 +226,38 @@ func (w *World) DrawC06KVDelete(t *rapid.T) *Op {
 		return NewKV(KVDelete, w.NextIdx(t), e.Key, nil, 0, 0, "")
 	}
 	return NewKV(KVDeleteTree, w.NextIdx(t), pick(t, "delprefix", holding), nil, 0, 0, "")
+}
+
+// DrawC06Intentions writes, rewrites or deletes a service-intentions config entry (the intention match queries of the
+// panel read them; the shared config generator draws this kind rarely).
+func (w *World) DrawC06Intentions(t *rapid.T) *Op {
+	dest := pick(t, "ixndest", []string{"web", "api", "db", "*"})
+	si := &structs.ServiceIntentionsConfigEntry{Kind: structs.ServiceIntentions, Name: dest}
+	_, cur, _ := w.Store.ConfigEntry(nil, structs.ServiceIntentions, dest, nil)
+	if cur != nil && chance(t, "ixndelete", 35) {
+		return NewConfig(ConfigDelete, w.NextIdx(t), structs.ConfigEntryDelete, si)
+	}
+	n := rapid.IntRange(1, 3).Draw(t, "nixnsrc")
+	for i := 0; i < n; i++ {
+		src := pick(t, "ixnsrc", []string{"web", "api", "db", "*"})
+		dupl := src == dest && dest != "*"
+		for _, s := range si.Sources {
+			dupl = dupl || s.Name == src
+		}
+		if dupl {
+			continue
+		}
+		si.Sources = append(si.Sources, &structs.SourceIntention{Name: src,
+			Action: pick(t, "ixnaction", []structs.IntentionAction{structs.IntentionActionAllow, structs.IntentionActionDeny})})
+	}
+	if len(si.Sources) == 0 {
+		return w.DrawOp(t, C06Cfg)
+	}
+	if err := si.Normalize(); err != nil {
+		t.Skip("intentions entry does not normalise: " + err.Error())
+	}
+	if err := si.Validate(); err != nil {
+		return w.DrawOp(t, C06Cfg)
+	}
+	return NewConfig(ConfigSet, w.NextIdx(t), structs.ConfigEntryUpsert, si)
 }
